@@ -218,6 +218,16 @@ def make_result_check(prop, terms, extra_kinds=(), oracle_keys=(), seq=None, wit
             r1, mism = k1_part(rep, tier, seed)
             if mism:
                 corr_failure(rep, "K1", mism, [], str)
+        if prop == "C01" and res["known"].get("C01_pre_map_col", 0) > 0:
+            for f in vlib.load_findings()["findings"]:
+                if f["property"] == "C01" and f["key"] == "pre-advanced-con-iter.map.collect":
+                    rep.known.append("%s [%d runs, e.g. %s]" % (f["what"], res["known"]["C01_pre_map_col"],
+                                                              res["known"].get("C01_pre_map_col_sample", "")[:200]))
+                    break
+            else:
+                rep.violation("parallel map-only collect over a pre-advanced concurrent iterator panics and the known-findings file does not list it",
+                              {"failing_input_found": True, "correspondence": "K3",
+                               "input": res["known"].get("C01_pre_map_col_sample", "")})
     return check
 
 
